@@ -159,9 +159,22 @@ func newP(b Backend, id string) P {
 type XP struct {
 	P
 	Code2 string
+	// Say shadows the promoted P.Say and holds a stale text; Say2 holds the right one: reflection finds Say by name,
+	// RegisterField binds the GraphQL field say to Say2
+	Say  string
+	Say2 string
 }
 
-func (x *XP) Code() string { return "stale: the method bound before RegisterField" }
+func (x *XP) Code() string {
+	if m := Marker; m != nil {
+		m()
+	}
+	return "stale: the method bound before RegisterField"
+}
+
+// Marker, when set, is called by XP.Code: a request that selects code right before another field of P says so just
+// before it gets to that field.
+var Marker func()
 
 // XA, XB and XC are Go types whose names differ from the GraphQL type names (no binding by name):
 // they are bound by Root.RegisterType only, possibly AFTER requests have met them unbound.
@@ -180,7 +193,7 @@ func NewAlt(b Backend, typeName, id string) interface{} {
 		return &XC{C{B: b, ID: id}}
 	case "P":
 		p := newP(b, id)
-		return &XP{P: p, Code2: p.code}
+		return &XP{P: p, Code2: p.code, Say: "stale: the struct field found by name", Say2: p.Say}
 	}
 	return New(b, typeName, id)
 }
